@@ -332,7 +332,7 @@ func cmdRun(args []string) int {
 	racebin := fs.String("racebin", "", "")
 	hooks := fs.String("hooks", "on", "")
 	workdir := fs.String("workdir", "", "")
-	covinfo := fs.String("covinfo", "", "file with anchor coverage lines to embed (optional)")
+	covinfo := fs.String("covdir", "", "GOCOVERDIR of a -cover build; anchor-function coverage is embedded in the evidence (optional)")
 	outdir := fs.String("out", "", "directory for evidence/ and replay/ (default: the verif directory)")
 	fs.Parse(args)
 	if *outdir == "" {
@@ -621,9 +621,7 @@ func finish(env *runEnv, results []jobResult, verif, outdir, hooks, covinfo stri
 			cov["inconclusive"] = inconclusive
 		}
 		if covinfo != "" {
-			if b, err := os.ReadFile(covinfo); err == nil {
-				cov["anchor_coverage"] = parseCovInfo(string(b))
-			}
+			cov["anchor_coverage"] = anchorCoverage(verif, covinfo, p.ID)
 		}
 		assumptions := p.Assumptions
 		if assumptions == nil {
@@ -657,12 +655,47 @@ func finish(env *runEnv, results []jobResult, verif, outdir, hooks, covinfo stri
 	return 0
 }
 
-func parseCovInfo(s string) map[string]string {
+// anchorCoverage merges the coverage counters written by the workers of a
+// -cover build and returns the statement coverage of every function in the
+// property's anchored files.
+func anchorCoverage(verif, covdir, prop string) map[string]string {
+	anchors := map[string]bool{}
+	if b, err := os.ReadFile(filepath.Join(verif, "properties.jsonl")); err == nil {
+		for _, line := range strings.Split(string(b), "\n") {
+			var p struct {
+				ID      string `json:"id"`
+				Anchors struct {
+					Files []string `json:"files"`
+				} `json:"anchors"`
+			}
+			if json.Unmarshal([]byte(line), &p) == nil && p.ID == prop {
+				for _, f := range p.Anchors.Files {
+					anchors[f] = true
+				}
+			}
+		}
+	}
+	cmd := exec.Command("go", "tool", "covdata", "func", "-i="+covdir)
+	cmd.Env = append(os.Environ(), "GOFLAGS=-mod=mod", "GOTOOLCHAIN=local")
+	out, err := cmd.Output()
 	m := map[string]string{}
-	for _, line := range strings.Split(s, "\n") {
+	if err != nil {
+		m["error"] = "go tool covdata failed: " + err.Error()
+		return m
+	}
+	const prefix = "github.com/fluhus/biostuff/"
+	for _, line := range strings.Split(string(out), "\n") {
 		f := strings.Fields(line)
-		if len(f) == 3 {
-			m[f[0]+" "+f[1]] = f[2]
+		if len(f) != 3 || !strings.HasPrefix(f[0], prefix) {
+			continue
+		}
+		loc := strings.TrimPrefix(f[0], prefix) // file.go:line:
+		file := loc
+		if i := strings.Index(loc, ":"); i >= 0 {
+			file = loc[:i]
+		}
+		if anchors[file] {
+			m[file+" "+f[1]] = f[2]
 		}
 	}
 	return m
